@@ -177,7 +177,7 @@ func genSmallCmd(out string, seed uint64, thorough bool) error {
 
 	nscripts := 200
 	if thorough {
-		nscripts = 1200
+		nscripts = 500
 	}
 	if v, err := strconv.Atoi(os.Getenv("VERIF_C16_SCRIPTS")); err == nil && v > 0 {
 		nscripts = v
@@ -265,7 +265,7 @@ func genSmallCmd(out string, seed uint64, thorough bool) error {
 			stats["corrupt"]++
 		}
 		// the smallest logs of the thorough tier: every offset x all 255 other values
-		full := thorough && s < 12
+		full := thorough && s < 8
 		for fi := range final.files {
 			data := final.files[fi].data
 			offs, end := frameOffsets(data)
@@ -327,7 +327,7 @@ func genSmallCmd(out string, seed uint64, thorough bool) error {
 				}
 				nsamp := 2
 				if thorough {
-					nsamp = 24
+					nsamp = 10
 				}
 				for t := 0; t < nsamp && e-o > 20; t++ {
 					off := o + 20 + r.intn(e-o-20)
